@@ -298,6 +298,27 @@ fn check(ctx: &Ctx) -> i32 {
         vh::netsweep::check_list_opt("c01.shared", &items, &reqs, l, false, true, optimize);
         vh::netsweep::check_list_incremental("c01.shared", &items, &reqs, l, true, optimize);
     });
+    // modifier twins: rules with one pattern (one bucket, one mask) that differ only in the value of
+    // their modifier option, in every ordered pair and triple, through every construction route
+    // (built unoptimised, built optimised, handed over rule by rule and then optimised in place)
+    let twins = [
+        "/foo/bar$removeparam=utm", "/foo/bar$removeparam=x", "/foo/bar$removeparam=b", "/foo/bar$csp=d1", "/foo/bar$csp=d2", "/foo/bar$redirect=a", "/foo/bar$redirect=b",
+        "/foo/bar$redirect-rule=a:5", "*$removeparam=x", "*$removeparam=b",
+    ];
+    let nt = twins.len() as u64;
+    ctx.bound("modifier_twins", serde_json::json!(twins));
+    let twin_len: u32 = ctx.tier.pick(2, 3);
+    ctx.par_range("modifier twins x construction routes", count_arrangements_upto(nt, twin_len), 4, |i, l| {
+        let mut idx = vec![];
+        nth_arrangement(i, nt, &mut idx);
+        if idx.len() < 2 {
+            return;
+        }
+        let items: Vec<(&str, bool)> = idx.iter().map(|&j| (twins[j], false)).collect();
+        vh::netsweep::check_list_opt("c01.twins", &items, &reqs, l, false, true, false);
+        vh::netsweep::check_list_opt("c01.twins", &items, &reqs, l, false, true, true);
+        vh::netsweep::check_list_incremental("c01.twins", &items, &reqs, l, true, true);
+    });
     // the rule cube: every (pattern shape, option set, exception?) cell alone, and next to each of
     // a few partner rules that change which token the cell is filed under or share its bucket
     let np = alpha::CUBE_PATTERNS.len() as u64;
@@ -329,8 +350,8 @@ fn check(ctx: &Ctx) -> i32 {
             l.samples.push(serde_json::json!({"cube_cell": rule, "partner": partner}));
         }
         vh::netsweep::check_list("c01.cube", &items, &reqs, l, false, true);
-        if (i / np / no / 2) < 2 || (ctx.tier == vh::Tier::Thorough && (i / np / no / 2) % 2 == 0) {
-            vh::netsweep::check_list_incremental("c01.cube", &items, &reqs, l, true, false);
+        if (i / np / no / 2) < 1 || (ctx.tier == vh::Tier::Thorough && (i / np / no / 2) % 2 == 0) {
+            vh::netsweep::check_list_incremental("c01.cube", &items, &reqs, l, true, (p + o) % 2 == 1);
         }
     });
     // bucket sizes: n rules that share their only indexable token (one bucket of n entries), each
